@@ -15,6 +15,8 @@ import (
 	"fmt"
 	"os"
 	"strings"
+	"sync"
+	"time"
 
 	"github.com/glowlabs-org/gca-backend/glow"
 	"github.com/glowlabs-org/gca-backend/server"
@@ -208,6 +210,55 @@ func serverlistSuite(seed uint64, tier, outDir string) (*core.Result, error) {
 		rs.s.Close()
 		os.RemoveAll(rs.dir)
 	}
+	// simultaneous announcements of one new key (authorizations with different ports, and an authorization
+	// next to a ban): the key gets exactly one entry, and once banned it stays banned
+	{
+		rs, err := startRealServer("verif-serverlist-conc")
+		if err != nil {
+			return nil, err
+		}
+		t2 := &sigTab{}
+		for round := 0; round < 500; round++ {
+			k := newKey()
+			var wg sync.WaitGroup
+			start := make(chan struct{})
+			withBan := round%2 == 1
+			for g := 0; g < 8; g++ {
+				as := mkAS(t2, rs.gca, k.pub, withBan && g == 3, "127.0.0.1", 9, uint16(2000+g), uint16(3000+g))
+				wg.Add(1)
+				go func() {
+					defer wg.Done()
+					<-start
+					rs.postJSON("authorized-servers", as)
+				}()
+			}
+			time.Sleep(time.Millisecond)
+			close(start)
+			wg.Wait()
+			res.Count("op.simultaneous-new")
+			list, err := rs.getServers()
+			if err != nil {
+				break
+			}
+			n, banned, open := 0, 0, 0
+			for _, e := range list {
+				if e.PublicKey == k.pub {
+					n++
+					if e.Banned {
+						banned++
+					} else {
+						open++
+					}
+				}
+			}
+			if n > 1 {
+				res.Fail(fmt.Sprintf("after 8 simultaneous announcements of one new server key the list holds %d entries for it (%d banned, %d not banned)", n, banned, open), "list-duplicate-key", map[string]interface{}{"entries": n, "banned": banned, "not_banned": open, "with_ban": withBan})
+				break
+			}
+		}
+		rs.s.Close()
+		os.RemoveAll(rs.dir)
+	}
 	for off := 0; off < len(items); off += 5 {
 		end := off + 5
 		if end > len(items) {
@@ -218,7 +269,7 @@ func serverlistSuite(seed uint64, tier, outDir string) (*core.Result, error) {
 		}
 	}
 	res.Required = append(res.Required, "op.new", "op.dup-ports", "op.ban", "op.unban", "op.reban-moved", "op.badsig", "op.tampered", "op.new-banned",
-		"op.mig-valid", "op.mig-badouter", "op.mig-badinner", "op.mig-empty")
+		"op.mig-valid", "op.mig-badouter", "op.mig-badinner", "op.mig-empty", "op.simultaneous-new")
 	res.Rule = "POST sequences against a real server: new / duplicate with changed ports / ban / un-ban attempt / ban record with another address for a banned key / foreign signature / field changed after signing / banned on arrival; migration orders valid, bad outer, bad inner, empty; locations of 0,1,255,256 bytes and non-ASCII; GET after each; non-trivial = every sequence (each contains accepted and refused requests)"
 	return res, nil
 }
